@@ -132,6 +132,14 @@ def run(ctx):
             for d in md:
                 hops.append(f'mice.enc {d} 16 {hexs(b"forty bytes of payload, more or less....")}')
         ctx.both(hops)
+    # object history: one Signer used first with certificate A, then (Certs replaced) with certificate B
+    rot = []
+    for v in ('b1', 'b2', 'b3'):
+        ev = ex(v, b'https://example.com/', b'GET', [], 200, H[:3], b'', b'payload')
+        for ka in w.keys[:3]:
+            for kb in w.keys[:3]:
+                rot.append(f'sxg.sign.mock.rotate {exs(ev)} {ka["cert"]} {kb["cert"]} {hexs(b"https://example.com/c")} {hexs(b"https://example.com/v")} 5 10')
+    ctx.both(rot)
     # concurrency under the race detector
     G, R = (64, 20) if thorough else (8, 10)
     e3 = ex('b3', b'https://example.com/', b'GET', [], 200, H[:4], b'sig', b'payload' * 50)
